@@ -11,6 +11,8 @@ import PhyVerif.Lemmas.C04e
 import PhyVerif.Model.C04f
 import PhyVerif.Lemmas.C04f
 import PhyVerif.Lemmas.C04g
+import PhyVerif.Model.C04h
+import PhyVerif.Lemmas.C04h
 /-!
 # C04 — loading a dataset reproduces its files under every supported layout
 Only property theorems + non-vacuity examples; proofs in `Lemmas/C04*.lean`.
@@ -535,5 +537,144 @@ example :
 example : ∀ name ∈ ["pc_features.npy", "pc_feature_ind.npy", "pc_feature_spike_ids.npy", "template_features.npy",
       "template_feature_ind.npy", "template_feature_spike_ids.npy"],
     ∀ g ∈ Lemmas.createdNames, globMatch name g = false := by decide
+
+/-! ## The directory in EVERY outcome (`loadAny`), derived ids, entry-level helpers -/
+
+/-- **load_frame_any_outcome** ("leaves every pre-existing file byte-identical, and creates nothing except the
+spike-cluster copy and the inverse whitening matrix when those are missing" — ALSO when the load rejects or fails): for
+every directory, every set of refused dtypes and whatever the outcome of `loadAny` (success, non-monotonic times, two
+cluster files, missing file, empty train, refused dtype), with `d'` the directory it leaves: every pre-existing file is
+unchanged; every name of `d'` is a name of `d` or one of the two; a `spike_clusters.npy` that appeared was missing under
+both names and holds the contents of the winning spike-template file; `whitening_mat_inv.npy` is new or as it was; and at
+most one file per missing name was added. -/
+theorem load_frame_any_outcome (inv : Arr → Arr) (bad : List String) (d : Dir) :
+    let d' := (loadAny inv bad d).2
+    (∀ name a, d.lookup name = some a → d'.lookup name = some a) ∧
+    (∀ name ∈ d'.map (·.1), name ∈ d.map (·.1) ∨ name = "spike_clusters.npy" ∨ name = "whitening_mat_inv.npy") ∧
+    ("spike_clusters.npy" ∉ d.map (·.1) → "spike_clusters.npy" ∈ d'.map (·.1) →
+      findPath d ["spike_clusters.npy", "spikes.clusters*.npy"] = none ∧
+      ∃ f, findPath d ["spike_templates.npy", "spikes.templates*.npy"] = some f ∧
+        d'.lookup "spike_clusters.npy" = d.lookup f) ∧
+    ("whitening_mat_inv.npy" ∉ d.map (·.1) ∨ d'.lookup "whitening_mat_inv.npy" = d.lookup "whitening_mat_inv.npy") ∧
+    d'.length ≤ d.length +
+      (if findPath d ["spike_clusters.npy", "spikes.clusters*.npy"] = none then 1 else 0) +
+      (if d.lookup "whitening_mat_inv.npy" = none then 1 else 0) :=
+  Lemmas.frame_of_added d _ (Lemmas.loadAny_added inv bad d)
+
+/-- **load_rejection_leaves_directory**: the rejections the statement names (non-monotonic spike times) and every other
+failure that `_load_data` raises before model.py:372 (no spike-time / spike-template file, two cluster files, an empty
+spike train, a refused spike-template dtype) leave the directory EXACTLY as it was (nothing created at all).  A missing
+channel map / positions file and a refused channel-map / template dtype are detected after `_load_spike_clusters` has
+made its copy: `load_frame_any_outcome` applies, the `example` below shows the copy left behind (real code: the same). -/
+theorem load_rejection_leaves_directory (inv : Arr → Arr) (bad : List String) (d : Dir) (e : AnyErr)
+    (h : (loadAny inv bad d).1 = .error e) (he : e.early = true) : (loadAny inv bad d).2 = d :=
+  Lemmas.loadAny_early_unchanged inv bad d e h he
+
+/-- **loadAny_is_load**: a successful `loadAny` IS a successful `load` with the same view and directory (all theorems about
+`load` / `loadFull` apply to it), and it has at least one spike (the loader refuses an empty spike train: `np.max` of an
+empty array, model.py:608, ValueError — so `spike_times[-1]` of `load_duration` exists). -/
+theorem loadAny_is_load (inv : Arr → Arr) (bad : List String) (d : Dir) (v : View) (d' : Dir)
+    (h : loadAny inv bad d = (.ok v, d')) : load inv d = .ok (v, d') ∧ v.spikeTemplates.data ≠ [] :=
+  Lemmas.loadAny_ok inv bad d v d' h
+
+example : AnyErr.early (.load .nonMonotone) = true ∧ AnyErr.early (.load (.conflict "spike clusters")) = true ∧
+    AnyErr.early (.load (.missing "channel map")) = false ∧ AnyErr.early (.dtype "channel map") = false := by decide
+
+/-- the error (if any) and the names of the directory a load leaves -/
+def exAny (bad : List String) (d : Dir) : Option AnyErr × List String :=
+  let r := loadAny id bad d
+  (match r.1 with | .error e => some e | .ok _ => none, r.2.map (·.1))
+
+def exBase : Dir := [("spike_templates.npy", ⟨[2], [.num 0, .num 1]⟩), ("channel_map.npy", ⟨[1], [.num 0]⟩)]
+
+/-- non-monotonic → directory untouched; missing channel positions → the cluster copy is left behind; a refused channel-map
+dtype likewise; an empty train is refused before anything is created -/
+example : exAny [] (("spike_times.npy", ⟨[2], [.num 4, .num 1]⟩) :: exBase) =
+    (some (.load .nonMonotone), ["spike_times.npy", "spike_templates.npy", "channel_map.npy"]) := by decide
+example : exAny [] (("spike_times.npy", ⟨[2], [.num 1, .num 4]⟩) :: exBase) =
+    (some (.load (.missing "channel positions")),
+     ["spike_times.npy", "spike_templates.npy", "channel_map.npy", "spike_clusters.npy"]) := by decide
+example : exAny ["channel_map"] (("spike_times.npy", ⟨[2], [.num 1, .num 4]⟩) :: exBase) =
+    (some (.dtype "channel map"), ["spike_times.npy", "spike_templates.npy", "channel_map.npy", "spike_clusters.npy"]) := by
+  decide
+example : exAny [] [("spike_times.npy", ⟨[0], []⟩), ("spike_templates.npy", ⟨[0], []⟩)] =
+    (some .emptyTrain, ["spike_times.npy", "spike_templates.npy"]) := by decide
+
+/-- **load_ids** (`template_ids`, `cluster_ids`, `probes`, `n_probes` — attributes `_load_data` derives with `np.unique`
+from loaded arrays, model.py:369, 376, 404-405; composition with C07's `unique_spec`): each is strictly increasing and
+lists exactly the (non-negative) values that occur in the loaded spike templates / spike clusters / channel probes (the
+probes with their default, zeros, when no file exists); `n_probes` is the number of distinct probes.  Ids are
+non-negative in every dataset (unsigned or counted from 0); `np.unique` would also list a negative value. -/
+theorem load_ids {β : Type} (fv : FullView β) :
+    C07.IsSortedSetOf fv.base.templateIds (fun v => ∃ c ∈ fv.base.spikeTemplates.data, cellInt c = (v : Int)) ∧
+    C07.IsSortedSetOf fv.base.clusterIds (fun v => ∃ c ∈ fv.base.spikeClusters.data, cellInt c = (v : Int)) ∧
+    C07.IsSortedSetOf fv.probes (fun v => ∃ c ∈ fv.channelProbes.data, cellInt c = (v : Int)) ∧
+    fv.nProbes = fv.probes.length :=
+  ⟨Lemmas.uniqueIds_spec _, Lemmas.uniqueIds_spec _, Lemmas.uniqueIds_spec _, rfl⟩
+
+example : uniqueIds ⟨[5], [.num 3, .num 0, .num 3, .num 7, .num 0]⟩ = [0, 3, 7] := by decide
+
+/-- **load_duration_last** (`load_duration` without its `getD` default): without raw data the duration of a loaded model
+with at least one spike is its LAST spike time … -/
+theorem load_duration_last {β : Type} (inv : Arr → Arr) (rate : Rat) (tden ncd : Nat) (one : Cell)
+    (d : Dir) (fv : FullView β) (d' : Dir)
+    (h : loadFull inv rate tden ncd one none d = .ok (fv, d')) (hne : fv.spikeTimes ≠ []) :
+    fv.duration = fv.spikeTimes.getLast hne :=
+  Lemmas.loadFull_duration_last inv rate tden ncd one d fv d' h hne
+
+/-- … and a model loaded by `loadAny` HAS at least one spike time: the loader refuses an empty train (model.py:608) before
+it reaches `self.spike_times[-1]` (model.py:456).  `hwf`: the spike-time and spike-template vectors hold as many cells as
+each other (both have shape `(ns,)` by `load_shapes`; a NumPy array holds as many cells as its shape says). -/
+theorem load_times_nonempty {β : Type} (inv : Arr → Arr) (bad : List String) (rate : Rat) (tden ncd : Nat) (one : Cell)
+    (raw : Option (List (List (List β)))) (d : Dir) (fv : FullView β) (d' : Dir)
+    (h : loadFull inv rate tden ncd one raw d = .ok (fv, d'))
+    (hany : loadAny inv bad d = (.ok fv.base, d'))
+    (hwf : fv.base.times.arr.data.length = fv.base.spikeTemplates.data.length) : fv.spikeTimes ≠ [] :=
+  Lemmas.loadAny_nonempty_times inv bad rate tden ncd one raw d fv d' h hany hwf
+
+/-! ### what the helpers on the right-hand sides of `load_values` / `load_features` do, by entries -/
+
+/-- `np.atleast_1d/2d/3d`: the cells are kept; dimensions other than 1 are kept in order; an array that already has `k`
+dimensions is unchanged; a vector becomes a ROW `(1, n)` (2d) or `(1, n, 1)` (3d), a matrix `(m, n)` becomes `(m, n, 1)`
+(templates with one local channel), a 0-d array `(1,)`, `(1, 1)`, `(1, 1, 1)`. -/
+theorem atleast_spec (k : Nat) (a : Arr) :
+    (atleast k a).data = a.data ∧
+    ((atleast k a).shape.filter (· != 1) = a.shape.filter (· != 1)) ∧
+    (k ≤ a.shape.length → atleast k a = a) ∧
+    (a.shape = [] → (atleast 1 a).shape = [1] ∧ (atleast 2 a).shape = [1, 1] ∧ (atleast 3 a).shape = [1, 1, 1]) ∧
+    (∀ n, a.shape = [n] → (atleast 2 a).shape = [1, n] ∧ (atleast 3 a).shape = [1, n, 1]) ∧
+    (∀ m n, a.shape = [m, n] → (atleast 3 a).shape = [m, n, 1]) :=
+  ⟨Lemmas.atleast_data k a, Lemmas.atleast_shape k a⟩
+
+/-- `cols = np.atleast_2d(cols).T` for a column table that is not 2-D (model.py:728-729): cells kept, a vector `(n,)`
+becomes a COLUMN `(n, 1)` (entry `(i, 0)` is cell `i`), a 2-D table is unchanged -/
+theorem colsFix_spec (a : Arr) :
+    (colsFix a).data = a.data ∧ (∀ n, a.shape = [n] → (colsFix a).shape = [n, 1]) ∧
+    (a.shape.length = 2 → colsFix a = a) ∧ (colsFix a).shape.filter (· != 1) = a.shape.filter (· != 1) :=
+  Lemmas.colsFix_spec a
+
+/-- the feature column table (model.py:791-795): cells kept; a stored `(nt, nloc)` table without a size-1 dimension is
+shown as stored; a stored `(nt,)` or `(nt, 1)` table (one local channel) as the column `(nt, 1)` -/
+theorem featCols_spec (c : Arr) :
+    (featCols c).data = c.data ∧
+    (∀ nt nloc, c.shape = [nt, nloc] → nt ≠ 1 → nloc ≠ 1 → featCols c = c) ∧
+    (∀ nt, nt ≠ 1 → (c.shape = [nt] ∨ c.shape = [nt, 1]) → (featCols c).shape = [nt, 1]) :=
+  Lemmas.featCols_spec c
+
+/-- `data[empty_templates, ...] = 0` (model.py:714-715) by entries: cell `j` of template `t` is shown as 0 when EVERY cell
+of template `t` is NaN, and as stored otherwise (a template with a single finite cell keeps all its NaNs; the array is
+memory-mapped, nothing else is scrubbed) -/
+theorem zeroNanTemplates_spec (a : Arr) (nt ns nc : Nat) (hs : a.shape = [nt, ns, nc])
+    (hl : a.data.length = nt * (ns * nc)) :
+    (zeroNanTemplates a).shape = a.shape ∧
+    ∀ t j, t < nt → j < ns * nc →
+      (zeroNanTemplates a).data[t * (ns * nc) + j]? =
+        if (∀ j', j' < ns * nc → a.data[t * (ns * nc) + j']? = some Cell.nan) then some (.num 0)
+        else a.data[t * (ns * nc) + j]? :=
+  Lemmas.zeroNanTemplates_spec a nt ns nc hs hl
+
+example : (zeroNanTemplates ⟨[2, 1, 2], [.nan, .nan, .nan, .num 3]⟩).data = [.num 0, .num 0, .nan, .num 3] := by decide
+example : (atleast 3 ⟨[2, 3], []⟩).shape = [2, 3, 1] ∧ (colsFix ⟨[3], []⟩).shape = [3, 1] ∧
+    (featCols ⟨[3, 1], []⟩).shape = [3, 1] ∧ featCols ⟨[3, 2], []⟩ = ⟨[3, 2], []⟩ := by decide
 
 end PhyVerif.C04
